@@ -83,6 +83,9 @@ def install_contract():
 
 def cases(ctx):
     rng = ctx.rng
+    for i in range(ctx.per_shard(ctx.pick(16, 600))):
+        yield {"kind": "twin", "cls": rng.choice(["numeric", "hex"]), "clear_first": rng.random() < 0.5,
+               "rseed": rng.getrandbits(32), "salt": rng.choice(["saltForTest", "Q", "n1"])}
     combos = [(f["id"], c) for f in REPLACE_FORMS for c in f["classes"]]
     reps = ctx.pick(30, 400)
     i = 0
@@ -99,7 +102,7 @@ def cases(ctx):
             yield {"kind": "one", "form": fid, "cls": cls, "trail": trail, "rseed": rng.getrandbits(32),
                    "salt": first + rng.choice(["", "alt", "Z9", "saltForTest"]),
                    "quote": list(rng.choice(S.QUOTES)) if f["quote"] else ["", ""],
-                   "t7_any": rng.random() < 0.5}
+                   "t7_any": rng.random() < 0.5, "u_is_secret": rng.random() < 0.2}
 
 
 def check_format(cls, orig, rep):
@@ -130,7 +133,41 @@ def check_format(cls, orig, rep):
     return None if rep else "empty replacement"
 
 
+def _twin(ctx, case):
+    """A clear-text numeric / hex secret whose value was seen earlier in the run as the plaintext of a
+    $9$ secret (C08 calls them the same secret): the clear-text occurrence must still come out in its
+    own format."""
+    nc = load.nc()
+    rng = random.Random(case["rseed"])
+    cls = case["cls"]
+    sec = S.gen_secret(rng, "j9", plain_class=cls)
+    enc = S.j9_occurrence(rng, sec)[0]
+    first, second = ("pre-shared-key \"%s\"" % enc, "ip ospf authentication-key %s" % sec["plain"])
+    if case.get("clear_first"):
+        first, second = second, first
+    fa = nc.af.FileAnonymizer(anon_pwd=True, anon_ip=False, salt=case["salt"])
+    out = io.StringIO()
+    fa.anonymize_io(io.StringIO(first + "\n" + second + "\n"), out)
+    got = out.getvalue().split("\n")
+    ctx.ev()
+    ctx.count("twin_documents")
+    clear_line = got[0] if case.get("clear_first") else got[1]
+    rep = clear_line.split()[-1]
+    why = check_format(cls, sec["plain"], rep)
+    ctx.count("replacements_decoded")
+    if rep == sec["plain"]:
+        ctx.violation(case, "not-replaced:twin", "clear-text twin unchanged: %r" % got)
+    elif why:
+        ctx.violation(case, "cleartext-after-j9-twin:class=%s" % cls if not case.get("clear_first") else "format:class=%s" % cls,
+                      "clear-text %s secret %r seen %s its $9$ twin is replaced by %r: %s (lines %r)"
+                      % (cls, sec["plain"], "before" if case.get("clear_first") else "after", rep, why, got[:2]))
+    else:
+        ctx.distinct(("twin", cls, case.get("clear_first"), case["salt"]))
+
+
 def check_case(ctx, case):
+    if case.get("kind") == "twin":
+        return _twin(ctx, case)
     if case.get("kind") == "suite":
         from .. import suite_workload
 
@@ -149,7 +186,8 @@ def check_case(ctx, case):
         if cls == "j9":
             sec["text"] = S.j9_occurrence(rng, sec)[0]
         secs.append(sec)
-    line, parts, _ = S.render(rng, f, [s["text"] for s in secs], quote=tuple(case["quote"]), trail=case["trail"])
+    line, parts, _ = S.render(rng, f, [s["text"] for s in secs], quote=tuple(case["quote"]), trail=case["trail"],
+                              u_is_secret=case.get("u_is_secret", False) and cls in ("text", "numeric", "hex", "type7"))
     fa = nc.af.FileAnonymizer(anon_pwd=True, anon_ip=False, salt=case["salt"])
     out = io.StringIO()
     fa.anonymize_io(io.StringIO(line + "\n"), out)
